@@ -17,6 +17,20 @@ def polar_modes(b, n):
 def chk_polar(inp):
     """orthonormal, piston-free, diagonalising the Kolmogorov covariance on the native polar grid; variances positive, non-increasing, tip = tilt"""
     seen = {}
+    # the first k functions do not depend on how many are asked for: a basis of k functions has the k LARGEST variances (tip and tilt first),
+    # i.e. the first k variances of a larger basis of the same pupil -- also for k = 1, 2, 3, 5
+    for (ri, nr) in ((0.2, 16), (0.35, 12)):
+        big = numpy.asarray(KL.gkl_basis(ri, nr, 5 * nr, nfunc=40, stf="kolstf")["evals"])[:40]
+        for k in (1, 2, 3, 5, 9, 14):
+            bk = KL.gkl_basis(ri, nr, 5 * nr, nfunc=k, stf="kolstf")
+            evk = numpy.asarray(bk["evals"])[:k]
+            if len(evk) != k or not numpy.allclose(evk, big[:k], rtol=1e-10):
+                return bad("a basis of %d function(s) (ri=%g, nr=%d) does not have the %d largest variances of the pupil (those of a 40-function basis)" % (k, ri, nr, k), evk.tolist(), big[:k].tolist())
+            if k >= 2:
+                m0 = KL.gkl_sfi(bk, 0)
+                spec = abs(numpy.fft.fft(m0, axis=1)).sum(0)
+                if int(numpy.argmax(spec[:spec.size // 2])) != 1:
+                    return bad("the first function of a %d-function basis (ri=%g, nr=%d) is not a tip/tilt (azimuthal order 1)" % (k, ri, nr), int(numpy.argmax(spec[:spec.size // 2])), 1)
     # many modes (ordering / pairing of several hundred functions; orthonormality on the native grid), without the O(n^2) covariance check
     for (ri, nr, nf) in ((0.2, 40, 200), (0.3, 30, 200), (0.1, 30, 300)):
         b = KL.gkl_basis(ri, nr, 5 * nr, nfunc=nf, stf="kolstf")
@@ -77,6 +91,15 @@ def chk_robust(inp):
         ev = numpy.asarray(var)[:8]
         if numpy.any(ev <= 0) or numpy.any(numpy.diff(ev) > 1e-12 * ev[0]):
             return bad("make_kl(8, 20, ri=%g, nr=%d): variances not positive / non-increasing" % (ri, nr), ev.tolist())
+    # the kernel contains zero separations: every structure function the builder offers must be finite there
+    for stf, kw in (("vk", {"outerscale": 3.}), ("kolmogorov", {})):
+        try:
+            with contextlib.redirect_stdout(io.StringIO()):
+                kl = aotools.make_kl(10, 32, ri=0.2, nr=20, stf=stf, **kw)[0]
+        except Exception as ex:
+            return bad("make_kl(10, 32, ri=0.2, nr=20, stf=%r) raises %s: %s" % (stf, type(ex).__name__, str(ex)[:100]), type(ex).__name__, "a KL basis")
+        if not numpy.all(numpy.isfinite(kl)):
+            return bad("make_kl(stf=%r) returns non-finite modes" % stf)
 
 
 def chk_cartesian(inp):
